@@ -524,8 +524,21 @@ class BeartypeSourceFileLoader(SourceFileLoader):
             cache_from_source_thread_local, 'optimization_marker', None)
 
         # Instruct this replacement to apply this marker in this thread.
+        #
+        # Note that this marker is suffixed by the subset of this configuration
+        # that changes the abstract syntax tree (AST) generated for this module
+        # (i.e., whether annotated assignments are type-checked and where the
+        # @beartype decorator is injected). All other options are looked up at
+        # runtime and thus *NOT* baked into bytecode. Omitting this suffix would
+        # erroneously reuse bytecode previously compiled under a different
+        # configuration, silently adding or dropping type-checks relative to the
+        # current configuration.
         cache_from_source_thread_local.optimization_marker = (
-            OPTIMIZATION_MARKER_BEARTYPE)
+            f'{OPTIMIZATION_MARKER_BEARTYPE}'
+            f'p{int(conf.claw_is_pep526)}'
+            f'f{conf.claw_decor_place_func.value}'
+            f't{conf.claw_decor_place_type.value}'
+        )
 
         # Attempt to defer to the superclass method.
         try:
